@@ -187,3 +187,54 @@ func H_C15_presence(which int) {
 	vAssert("present-in-one-only-differs", !URICmp(&u1, b1, &u2, b2, f) && !URICmp(&u2, b2, &u1, b1, f))
 	vReach("end")
 }
+
+// H_C15_order: two URIs with the same two parameters (kind 0: symbolic
+// one-letter names; kind 1: transport / lr in any letter case) or headers
+// (kind 2) in opposite order and independent symbolic values: the comparison
+// is symmetric, and equal exactly when the values agree (ignoring case).
+func H_C15_order(kind int) {
+	v1, v2, w1, w2 := vBytes(1), vBytes(1), vBytes(1), vBytes(1)
+	for _, x := range [][]byte{v1, v2, w1, w2} {
+		vAssume(isAlnum(x[0]))
+	}
+	var n1, n2 []byte
+	sep, start := byte(';'), byte(';')
+	switch kind {
+	case 0:
+		n1, n2 = vBytes(1), vBytes(1)
+		vAssume(isAlnum(n1[0]) && isAlnum(n2[0]))
+		vAssume(refLower(n1[0]) != refLower(n2[0]))
+	case 1:
+		n1, n2 = vBytes(9), vBytes(2)
+		vAssume(refEqFold(n1, "transport"))
+		vAssume(refEqFold(n2, "lr"))
+	case 2:
+		n1, n2 = vBytes(1), vBytes(1)
+		vAssume(isAlnum(n1[0]) && isAlnum(n2[0]))
+		vAssume(refLower(n1[0]) != refLower(n2[0]))
+		sep, start = '&', '?'
+	}
+	mk := func(a, av, b, bv []byte) []byte {
+		u := append([]byte("sip:u@h"), start)
+		u = append(u, a...)
+		u = append(u, '=')
+		u = append(u, av...)
+		u = append(u, sep)
+		u = append(u, b...)
+		u = append(u, '=')
+		u = append(u, bv...)
+		return u
+	}
+	b1 := mk(n1, v1, n2, v2)
+	b2 := mk(n2, w2, n1, w1)
+	var u1, u2 PsipURI
+	e1, _ := ParseURI(b1, &u1)
+	e2, _ := ParseURI(b2, &u2)
+	vAssert("both-parse", e1 == NoURIErr && e2 == NoURIErr)
+	r12 := URICmp(&u1, b1, &u2, b2, 0)
+	r21 := URICmp(&u2, b2, &u1, b1, 0)
+	same := vAnd(refLower(v1[0]) == refLower(w1[0]), refLower(v2[0]) == refLower(w2[0]))
+	vAssert("symmetric", r12 == r21)
+	vAssert("equal-iff-values-agree", vAnd(r12 == same, r21 == same))
+	vReach("end")
+}
